@@ -427,6 +427,9 @@ func genProgram(r *rng, kind string, focus string) *program {
 	}
 	if isCache {
 		p.cb = r.intn(2)
+		if focus == "reenter" {
+			p.cb = 9 // the evicted callback calls back into the cache
+		}
 	}
 	nkeys := 2 + r.intn(4)
 	key := func() string { return fmt.Sprintf("k%d", r.intn(nkeys)) }
@@ -594,6 +597,79 @@ func genProgram(r *rng, kind string, focus string) *program {
 		}
 	}
 	switch focus {
+	case "shrink":
+		// one thread grows the smallest table and then empties it again (the table shrinks back to a
+		// generation of the SAME length), while others sit between their table load and their bucket lock,
+		// delete (stale shrink requests, the give-up branch of resize), store, or clear
+		p.small = 1
+		p.hashMd = 0
+		p.prefill = nil
+		per := 3
+		if kind == "mapof" || kind == "cacheof" {
+			per = 5
+		}
+		n := per + 1 + r.intn(3)
+		st := func(k string) string {
+			if isCache {
+				return fmt.Sprintf("set %s %s %d", k, v(), int64(3_600_000_000_000))
+			}
+			return fmt.Sprintf("store %s %s", k, v())
+		}
+		var cyc []string
+		for i := 0; i < n; i++ {
+			cyc = append(cyc, st(fmt.Sprintf("g%d", i)))
+		}
+		for i := 0; i < n; i++ {
+			cyc = append(cyc, fmt.Sprintf("delete g%d", i))
+		}
+		if r.chance(1, 3) {
+			// the cycle starts from a grown table instead
+			for i := 0; i < n; i++ {
+				p.prefill = append(p.prefill, cyc[i])
+			}
+			cyc = cyc[n:]
+		}
+		p.threads = [][]string{cyc}
+		if r.chance(1, 3) {
+			// stale shrink request: a grown table with one entry left; its deleter asks for a shrink of a
+			// table that a concurrent Clear has already replaced (resize gives up), while a third thread
+			// runs into the raised resize flag
+			p.prefill = nil
+			for i := 0; i < n; i++ {
+				p.prefill = append(p.prefill, st(fmt.Sprintf("g%d", i)))
+			}
+			for i := 1; i < n; i++ {
+				p.prefill = append(p.prefill, fmt.Sprintf("delete g%d", i))
+			}
+			p.threads = [][]string{{"delete g0"}, {"clear"}, {st("x0")}}
+			if r.chance(1, 2) {
+				p.threads[2] = append(p.threads[2], st("x1"))
+			}
+			break
+		}
+		for i := 0; i < 1+r.intn(2); i++ {
+			var ops []string
+			for j := 0; j < 1+r.intn(2); j++ {
+				k := fmt.Sprintf("g%d", r.intn(n))
+				switch r.intn(6) {
+				case 0, 1:
+					ops = append(ops, st(k))
+				case 2:
+					ops = append(ops, "delete "+k)
+				case 3:
+					ops = append(ops, "clear")
+				case 4:
+					ops = append(ops, st(fmt.Sprintf("x%d", r.intn(3))))
+				default:
+					if isCache {
+						ops = append(ops, "get "+k)
+					} else {
+						ops = append(ops, "load "+k)
+					}
+				}
+			}
+			p.threads = append(p.threads, ops)
+		}
 	case "lazy":
 		// every key is expired-but-uncleaned when the concurrent phase starts: lazy deletion on read and
 		// DeleteExpired race writers that store fresh values
@@ -1322,6 +1398,7 @@ func schedMode(a map[string]string) {
 	r := newRng(uint64(seed))
 	id := 0
 	nSwitch := 0
+	stuck := 0
 	for p := 0; p < nprog; p++ {
 		prog := genProgram(r, kind, focus)
 		for sidx := 0; sidx < nsched; sidx++ {
@@ -1344,7 +1421,14 @@ func schedMode(a map[string]string) {
 			nSwitch += o.steps
 			for _, b := range o.monitors() {
 				fmt.Fprintf(bw, "%d %s\n", id, b)
+				if strings.HasPrefix(b, "DEADLOCK") || strings.HasPrefix(b, "HANG") || strings.HasPrefix(b, "STEP-BUDGET") || strings.HasPrefix(b, "PANIC") {
+					stuck++
+				}
 			}
+		}
+		// schedules that end stuck leave their goroutines behind (blocked or spinning): a handful is enough
+		if stuck >= 6 {
+			break
 		}
 	}
 	fmt.Fprintf(bw, "# explored %d schedules, %d scheduled steps\n", id, nSwitch)
